@@ -405,7 +405,48 @@ fn project(case: &Value) -> Value {
     }
 }
 
+/// `c15 oneshot <case.json> <result.json>`: one library-entry run in this process, result written to a file.
+/// Used where the entry point prints to stdout (verbose, cargo: directives) or may abort the process
+/// (stack overflow): the caller judges the exit status / signal of this child and reads the file.
+/// case {"entry": "lib"|"build", "src_dir", "out_dir", "validation", "verbose", "visualize_deps",
+/// "include_private", "exclude_patterns", "dir" (build: directory to chdir into; reads tauri.conf.json there)}
+fn oneshot(case_path: &str, result_path: &str) {
+    let case: Value = serde_json::from_str(&std::fs::read_to_string(case_path).expect("case file")).expect("case json");
+    install_hook();
+    let entry = case["entry"].as_str().unwrap_or("lib").to_string();
+    let r = catch_unwind(AssertUnwindSafe(|| -> Result<Vec<String>, String> {
+        if entry == "build" {
+            std::env::set_current_dir(case["dir"].as_str().unwrap()).map_err(|e| e.to_string())?;
+            tauri_typegen::BuildSystem::generate_at_build_time().map(|_| vec![]).map_err(|e| e.to_string())
+        } else {
+            let mut cfg = GenerateConfig::default();
+            cfg.project_path = case["src_dir"].as_str().unwrap().to_string();
+            cfg.output_path = case["out_dir"].as_str().unwrap().to_string();
+            cfg.validation_library = case["validation"].as_str().unwrap_or("none").to_string();
+            cfg.force = Some(true);
+            cfg.verbose = case["verbose"].as_bool();
+            cfg.visualize_deps = case["visualize_deps"].as_bool();
+            cfg.include_private = case["include_private"].as_bool();
+            if let Some(p) = case["exclude_patterns"].as_array() {
+                cfg.exclude_patterns = Some(p.iter().filter_map(|x| x.as_str().map(|s| s.to_string())).collect());
+            }
+            tauri_typegen::generate_from_config(&cfg).map_err(|e| e.to_string())
+        }
+    }));
+    let v = match r {
+        Ok(Ok(files)) => json!({"result": "ok", "files": files}),
+        Ok(Err(e)) => json!({"result": "err", "detail": e}),
+        Err(e) => json!({"result": "panic", "detail": panic_msg(e)}),
+    };
+    std::fs::write(result_path, serde_json::to_string(&v).unwrap()).expect("result file");
+}
+
 fn main() {
+    let args: Vec<String> = std::env::args().collect();
+    if args.len() == 4 && args[1] == "oneshot" {
+        oneshot(&args[2], &args[3]);
+        return;
+    }
     tt_harness::dispatch(&[
         ("validator", validator),
         ("serde", serde),
